@@ -59,6 +59,10 @@ class Stream:
                 if f[2] == "DIFF":
                     m, g = f[3].split(" ## ", 1)
                     cases[cid]["model"] = m
+                    # error CLASSES are read off message texts by the harness; the properties only distinguish
+                    # "error, no program" from "program": two errors are the same observable
+                    if m.startswith("ERR") and g.startswith("ERR "):
+                        cases[cid]["corr"] = "same-error"
             elif ln.startswith("E "):
                 f = ln.split(" ", 4)
                 cid, idx, ok = f[1], int(f[2]), f[3] == "ok"
@@ -421,7 +425,7 @@ def check_C04(ctx, replay=None):
         ctx.regen_failed = "regeneration failed: " + log[-2000:]
     check_core_policy(ctx, "C04", "C04.v",
                       ["C04_foreign_arch_default", "C04_x32_enosys", "C04_independent_of_rules", "C04_prologue_both_encodings",
-                       "C04_source_layout_is_the_model", "C04_source_x32_guard_is_the_model", "C04_source_return_value", "C04_nonvacuous"],
+                       "C04_source_layout_is_the_model", "C04_source_x32_guard_is_the_model", "C04_nonvacuous"],
                       ["names", "names_long", "names_long", "names_long", "cond", "mixed", "mixed_long", "condlong", "degenerate", "whole_table"],
                       "policies of every kind sized so that the architecture jump distance straddles 255/256 (name lists of 245..260 and longer, conditional entries), all four tables; compared with the extracted model on the prologue, the instruction the architecture jump lands on and the x32 guard; every accepted program run ONLY on events of a foreign architecture (all audit ids of the package, bit flips of the native id, random words) and, natively, numbers with the x32 bit (0x40000000, |n, 0xFFFFFFFF, ...) or just below it, against the extracted decide; non-trivial = accepted policy with events evaluated",
                       replay=replay, npol=(250, 4000), nev=(40, 80), foreign_share=0.6, x32_share=0.4, diff_filter=differs, gen=gen)
@@ -632,7 +636,7 @@ def check_C07(ctx, replay=None):
                 p = ctx.violation("counterexample", dict(case=c["line"].split(" | ")[0], go_result=summarize_go(go), what=bad, description=m), True)
                 rewrite_with_replay_cmd(ctx, p)
         # correspondence on the projected observable: accepted / error class
-        if mclass != gclass and not (mclass == "OK" and gclass == "OK"):
+        if mclass != gclass and not (mclass == "OK" and gclass == "OK") and not (mclass.startswith("ERR") and gclass.startswith("ERR ")):
             if (mclass.startswith("OK")) != (gclass.startswith("OK")) or mclass != gclass:
                 ndiff += 1
                 if rep < 3 and not bad:
